@@ -755,15 +755,30 @@ def check_descent(ctx, algo):
         ctx.violation("R05-DESCENT", c.file, qual, norm_src(W.test), "the descent does not continue on 'cell has children'", W.lineno)
         return
     want = {("is not", "%s.get_children()" % cur, "None")}
+    fc = CS.FnCtx(model, E.Effects(model), algo, fn)
+    wn = fc.cfg.node_of(W)
     if algo == "HCT":
+        # a threshold looked up at a local counter that is the cursor's depth (kept in lock-step with the descent) is the
+        # threshold of the cursor's depth
+        for a in list(atoms):
+            for k in (1, 2):
+                if isinstance(a[k], str) and a[k].startswith("self.tau_h[") and a[k].endswith("]") and a[k] != "self.tau_h[%s.get_depth()]" % cur:
+                    try:
+                        idx = ast.parse(a[k][len("self.tau_h["):-1], mode="eval").body
+                    except SyntaxError:
+                        continue
+                    okd, _how = CS.proves_depth(fc, ast.Name(id=cur, ctx=ast.Load()), idx, wn) if cur.isidentifier() else (False, "")
+                    if okd:
+                        atoms.discard(a)
+                        b = list(a)
+                        b[k] = "self.tau_h[%s.get_depth()]" % cur
+                        atoms.add(tuple(b))
         want.add(("<=", "self.tau_h[%s.get_depth()]" % cur, "%s.get_visited_times()" % cur))
     if algo == "VHCT":
         want.add(("<=", "%s.get_tau_hi_value()" % cur, "%s.get_visited_times()" % cur))
     ctx.ob("R05-DESCENT", atoms == want, c.file, qual, "continue-condition of the descent",
            "%s" % sorted(atoms) if atoms == want else "is %s, published rule is %s" % (sorted(atoms), sorted(want)), W.lineno)
     # start at the root
-    fc = CS.FnCtx(model, E.Effects(model), algo, fn)
-    wn = fc.cfg.node_of(W)
     ds, entry = fc.reaching(cur, wn)
     starts = [r for n, r in ds if not fc.cfg.paths_avoiding(wn, n, ())]
     ok = not entry and len(starts) == 1 and starts[0][0] == "assign" and norm_src(starts[0][1]) in ("self.partition.get_root()", "self.partition.root")
@@ -778,9 +793,16 @@ def check_descent(ctx, algo):
     f = folds[0]
     kids = "%s.get_children()" % cur
     set_ok = f.set_src == kids
-    if not set_ok and f.set_src.isidentifier():
-        dd = [s2 for s2 in W.body if isinstance(s2, ast.Assign) and norm_src(s2.targets[0]) == f.set_src]
-        set_ok = len(dd) == 1 and norm_src(dd[0].value) == kids
+    if not set_ok and f.set_src.isidentifier() and cur.isidentifier():
+        # a local that holds the cursor's child list whenever the selection reads it (defined at the top of the body, or before
+        # the loop and again after each move): every definition reaching the selection is `= <cursor>.get_children()` with the
+        # cursor not moved since
+        probe = ast.parse("%s[0]" % f.set_src, mode="eval").body
+        try:
+            at_fold = fc.node_of(f.loop) if getattr(f, "loop", None) is not None else fc.node_of(model.enclosing_stmt(f.if_node))
+            set_ok = CS.is_child_of(fc, probe, cur, at_fold)
+        except Exception:
+            set_ok = False
     okf = (f.direction == "max" and f.covers_all and not f.also and not f.filters and f.key_src == "%s.get_b_value()" % f.elem and set_ok
            and f.seed in ("first-element", "-np.inf", "-math.inf", "-float('inf')", "float('-inf')"))
     ctx.ob("R05-DESCENT", okf, c.file, qual, "step: child with maximal B among all children", f.describe() + ("; " + "; ".join(f.also) if f.also else ""),
